@@ -47,7 +47,7 @@ def decodeHeader : Parser Header := do
 /-- the optional parts in front of the message: tracing id (responses), warnings, custom payload — in this order -/
 def encodeBodyPrefix (h : Header) (b : Body) : Res Bytes := do
   let tracing ← whenW (hasFlag h.flags HeaderFlagTracing && b.message.isResponse) (writeUuid b.tracingId)
-  let warnings ← whenW (hasFlag h.flags HeaderFlagWarning)
+  let warnings ← whenW (hasFlag h.flags HeaderFlagWarning && b.message.isResponse)
     (if h.version < ProtocolVersion4 ∧ b.warnings.isSome then .err "warnings are not supported"
      else .ok (writeStringList (b.warnings.getD [])))
   let payload ← whenW (hasFlag h.flags HeaderFlagCustomPayload)
@@ -64,7 +64,7 @@ def uncompressedBodyLength (h : Header) (b : Body) : Res Nat := do
   let msg ← lengthOfMsg h.version b.message
   pure (msg + optN (hasFlag h.flags HeaderFlagTracing && b.message.isResponse) lengthOfUuid +
     optN (hasFlag h.flags HeaderFlagCustomPayload) (lengthOfBytesMap (b.customPayload.getD [])) +
-    optN (hasFlag h.flags HeaderFlagWarning) (lengthOfStringList (b.warnings.getD [])))
+    optN (hasFlag h.flags HeaderFlagWarning && b.message.isResponse) (lengthOfStringList (b.warnings.getD [])))
 
 /-- `EncodeBody`: compresses when the COMPRESSED flag is set -/
 def encodeBody (c : Option BodyCompressor) (h : Header) (b : Body) : Res Bytes := do
